@@ -265,6 +265,15 @@ class CallGraph:
                 if g is not None:
                     add(g, ctx)
                 continue
+            # Base.method(self, ...) : an explicit up-call keeps the receiver, hence the visitor context
+            if isinstance(f, ast.Attribute) and n.args and isinstance(n.args[0], ast.Name) and n.args[0].id == "self" and func.cls is not None:
+                d0 = dotted(f.value)
+                r0 = prog.resolve_dotted(func.module, d0) if d0 else None
+                if isinstance(r0, Class) and r0 in prog.mro(func.cls):
+                    g = prog.lookup(r0, f.attr)
+                    if g is not None:
+                        add(g, ctx if ctx is not None else (func.cls if self._is_visitor(func.cls) else None))
+                        continue
             for g in self.resolve(n, func):
                 c2 = None
                 if g.cls is not None and self._is_visitor(g.cls) and isinstance(f, ast.Attribute):
